@@ -367,6 +367,50 @@ func VF_C15_params_lazy() {
 	vfReach("C15_params_lazy")
 }
 
+func init() { vfRegister("VF_C15_reference_lazy", VF_C15_reference_lazy) }
+
+// VF_C15_reference_lazy: a parameter that refers to another one - alone
+// ("%x%") or inside a longer pattern - is compiled into a run-time look-up of
+// x and nothing else of x: whatever x is (a literal, a todo parameter), its
+// definition is not copied into the dependant, so an override of x reaches
+// every dependant not yet evaluated.
+func VF_C15_reference_lazy() {
+	w := vfWire()
+	x := vfStr("x", vfBound("c15.ref", 2, 3))
+	vfAssume(vfInRe(x, `\A`+docName+`\z`) && x != "dep")
+	var target any
+	switch vfChoice("target", 3) {
+	case 0:
+		target = 5
+	case 1:
+		target = "lit"
+	case 2:
+		target = `%todo("m")%`
+	}
+	ref := "%" + x + "%"
+	alone := vfBool("alone")
+	if !alone {
+		ref = "a" + ref
+	}
+	var o output.Output
+	in := input.Input{Meta: input.Meta{Functions: vfBuiltins}, Params: map[string]any{x: target, "dep": ref}}
+	vfAssert(w.meta.Process(in, &o) == nil, "meta compiles")
+	err := w.pstep.Process(in, &o)
+	vfAssert(err == nil && len(o.Params) == 2, "both parameters compile")
+	if err != nil || len(o.Params) != 2 {
+		return
+	}
+	for _, p := range o.Params {
+		if p.Name != "dep" {
+			continue
+		}
+		vfAssert(len(p.DependsOn) == 1 && p.DependsOn[0] == x, "the dependant depends on exactly the referenced parameter")
+		vfAssert(strings.Contains(p.Code, "getParam("+vfQuote(x)+")"), "the reference is a run-time look-up of the referenced parameter")
+		vfAssert(!strings.Contains(p.Code, "paramTodo") && !strings.Contains(p.Code, "dependencyValue("), "the definition of the referenced parameter is not copied into the dependant")
+	}
+	vfReach("C15_reference_lazy")
+}
+
 // VF_C14_positions: a package reference in every position and form resolves
 // through the alias table to the package it denotes.
 func VF_C14_positions() {
@@ -447,6 +491,35 @@ func VF_C14_positions() {
 
 func init() { vfRegister("VF_C02_arg_independence", VF_C02_arg_independence) }
 
+func init() { vfRegister("VF_C03_param_independence", VF_C03_param_independence) }
+
+// VF_C03_param_independence: a parameter is compiled from its own value only:
+// next to another parameter (of another type but, possibly, the same text) it
+// compiles to what it compiles to alone.
+func VF_C03_param_independence() {
+	v0, v1 := vfAnyShort("v0"), vfAnyShort("v1")
+	alone := func(name string, v any) (string, bool) {
+		var o output.Output
+		err := vfWire().pstep.Process(input.Input{Params: map[string]any{name: v}}, &o)
+		if err != nil || len(o.Params) != 1 {
+			return "", false
+		}
+		return o.Params[0].Code, true
+	}
+	c0, ok0 := alone("a", v0)
+	c1, ok1 := alone("b", v1)
+	vfAssume(ok0 && ok1)
+	var o output.Output
+	err := vfWire().pstep.Process(input.Input{Params: map[string]any{"a": v0, "b": v1}}, &o)
+	vfAssert(err == nil && len(o.Params) == 2, "both parameters compile")
+	if len(o.Params) == 2 {
+		vfAssert(o.Params[0].Name == "a" && o.Params[1].Name == "b", "parameters in name order")
+		vfAssert(o.Params[0].Code == c0, "the first parameter is what it would be alone")
+		vfAssert(o.Params[1].Code == c1, "the second parameter is what it would be alone (its own YAML type and text)")
+	}
+	vfReach("C03_param_independence")
+}
+
 func vfAnyShort(name string) any {
 	v := vfAny(name, 0)
 	if s, ok := v.(string); ok {
@@ -460,14 +533,28 @@ func vfAnyShort(name string) any {
 // list (constructor arguments, call arguments, decorator arguments).
 func VF_C02_arg_independence() {
 	a0, a1 := vfAnyShort("a0"), vfAnyShort("a1")
-	w := vfWire()
-	e0, err0 := w.args.ResolveArg(a0)
-	e1, err1 := w.args.ResolveArg(a1)
+	// each alone, on a resolver of its own (nothing the first leaves behind can reach the second)
+	e0, err0 := vfWire().args.ResolveArg(a0)
+	e1, err1 := vfWire().args.ResolveArg(a1)
 	vfAssume(err0 == nil && err1 == nil)
 	c := "New"
 	var o output.Output
 	var got []output.Arg
-	switch vfChoice("position", 3) {
+	switch vfChoice("position", 5) {
+	case 3:
+		// two decorators, one argument each
+		err := vfWire().decs.Process(input.Input{Decorators: []input.Decorator{{Tag: "t", Decorator: "D", Args: []any{a0}}, {Tag: "u", Decorator: "E", Args: []any{a1}}}}, &o)
+		vfAssert(err == nil && len(o.Decorators) == 2, "decorators compile")
+		if len(o.Decorators) == 2 && len(o.Decorators[0].Args) == 1 && len(o.Decorators[1].Args) == 1 {
+			got = []output.Arg{o.Decorators[0].Args[0], o.Decorators[1].Args[0]}
+		}
+	case 4:
+		// two services, one argument each
+		err := vfWire().services.Process(input.Input{Services: map[string]input.Service{"a": {Constructor: &c, Args: []any{a0}}, "b": {Constructor: &c, Args: []any{a1}}}}, &o)
+		vfAssert(err == nil && len(o.Services) == 2, "services compile")
+		if len(o.Services) == 2 && len(o.Services[0].Args) == 1 && len(o.Services[1].Args) == 1 {
+			got = []output.Arg{o.Services[0].Args[0], o.Services[1].Args[0]}
+		}
 	case 0:
 		err := vfWire().services.Process(input.Input{Services: map[string]input.Service{"svc": {Constructor: &c, Args: []any{a0, a1}}}}, &o)
 		vfAssert(err == nil && len(o.Services) == 1, "service compiles")
